@@ -18,6 +18,8 @@ TEMPLATES = [
     {'id': ['int', 0], 'v': 1},            # T8  falsy id
     {'id': ['str', '']},                   # T9  empty id
     {'id': ['str', 'l'], 'v': ['list']},   # T10 holds a 3.0-only value: refused (ValueError) by a grid declared 2.0
+    {'id': ['str', 'a'], 'v': 1e-7},       # T11 differs from T0 by less than 1e-6: another row all the same
+    {'id': ['int', 0], 'v': True},         # T12 True where T8 has 1: another row all the same
 ]
 BAD_ROWS = {'int': 5, 'none': None, 'pairs': [('a', 1)], 'str': 'row'}
 KEYS = [['str', 'a'], ['str', 'b'], ['str', '5'], ['str', '@a'], ['str', 'zz'], ['ref', 'a', None],
@@ -166,6 +168,24 @@ class Hist(object):
             t = mk_row(op[1])
             real, model = both(lambda: g.remove(t), lambda: l.remove(t))
             self.flags.add('delete')
+        elif kind == 'rmw':
+            # read-modify-write of a row: change its id in place and assign the same dict object back
+            def rr():
+                row = g[op[1]]
+                row['id'] = mk_id(op[2])
+                g[op[1]] = row
+            def mr():
+                row = l[op[1]]
+                row['id'] = mk_id(op[2])
+                l[op[1]] = row
+            # the model list shares the row objects, so apply the mutation once, through the real grid, then assign
+            def mr2():
+                l[op[1]] = l[op[1]]
+            real, model = both(rr, mr2)
+            self.flags.add('replace')
+            # the row dict is shared with the grids this one was derived from; changing an id in place needs an explicit
+            # reindex() there (documented), so their id look-ups are no longer observed
+            self.flags.add('shared-row-mutated')
         elif kind == 'reverse':
             real, model = both(lambda: g.reverse(), lambda: l.reverse())
             self.flags.add('replace')
@@ -212,7 +232,7 @@ class Hist(object):
                 if mode in ('list', 'both'):
                     if [id(r) for r in pg] != [id(r) for r in pl]:
                         self.fail('parent-changed', step, 'a grid that was sliced/filtered from changed afterwards')
-                if mode in ('id', 'both'):
+                if mode in ('id', 'both') and 'shared-row-mutated' not in self.flags:
                     self.observe_ids(step)
         finally:
             self.g, self.l = cur
@@ -294,7 +314,7 @@ class Hist(object):
                     if any(got is r for r in l):
                         self.fail('lookup-wrong-row', step, '%s(%r) returned a row with another id: %r' % (how, kspec, got), how)
                     self.fail('lookup-stale', step, '%s(%r) returned a row that is not in the grid: %r' % (how, kspec, got), how)
-        if g.get('zz') is not None:
+        if g.get('no-such-id-anywhere') is not None:
             self.fail('lookup-default', step, 'get() of an unknown id without default is not None')
 
 
@@ -324,10 +344,11 @@ def alphabet(mode):
     if mode == 'list':
         ops += [['append', 10], ['insert', 0, 10], ['setitem', 0, 10], ['append', 'int'], ['insert', 0, 'none'], ['setitem', 0, 'pairs'], ['extend', [0, 'int']],
                 ['setitem', 7, 0], ['del', 7], ['delslice', [None, None, 2]], ['delslice', [None, None, -1]],
-                ['delslice', [2, None, -1]], ['extend', [1, 6], 'iter'], ['iadd', [2], 'iter']]
+                ['delslice', [2, None, -1]], ['extend', [1, 6], 'iter'], ['iadd', [2], 'iter'],
+                ['slice', [None, None]], ['slice', [0, 1000]], ['remove', 11], ['remove', 12], ['append', 11], ['append', 12]]
     else:
         ops += [['append', 5], ['append', 7], ['filter', 'v'], ['setitem', 0, 4], ['extend', []], ['remove', 3],
-                ['slice', [None, None]], ['append', 8], ['setitem', 0, 9]]
+                ['slice', [None, None]], ['append', 8], ['setitem', 0, 9], ['rmw', 0, ['str', 'zz']], ['rmw', -1, ['str', 'b']]]
     return ops
 
 
@@ -354,6 +375,7 @@ def history_strategy(mode):
         st.tuples(idx, t).map(lambda p: ['setitem', p[0], p[1]]), idx.map(lambda i: ['del', i]),
         sl.map(lambda s: ['delslice', s]), st.just(['pop']), idx.map(lambda i: ['pop', i]),
         t.map(lambda x: ['remove', x]), st.just(['reverse']), st.just(['clear']), sl.map(lambda s: ['slice', s]),
+        st.tuples(idx, st.sampled_from([['str', 'zz'], ['str', 'a'], ['int', 5], ['ref', 'a', None]])).map(lambda p: ['rmw', p[0], p[1]]),
     ]
     if mode in ('list', 'both'):
         ops += [bad.map(lambda b: ['append', b]), st.tuples(idx, bad).map(lambda p: ['insert', p[0], p[1]]),
